@@ -667,6 +667,13 @@ func init() {
 		Variant{Name: "FlattenMaps adds a catch-all entry next to each namespace", Property: "C14", File: "config/config.go",
 			Old: "\t\traw[ns] = mappings.AsMap()\n", New: "\t\traw[ns] = mappings.AsMap()\n\t\traw[\"*\"] = mappings.AsMap()\n", Expect: "O14.9"},
 	)
+	// ---- the ACL interceptor's lists are the policy's (O15.2 / O16.9)
+	addVariants(
+		Variant{Name: "benign: namespace allow-list de-duplicated by a helper before it reaches the interceptor", Property: "C16", File: "seeded-benign/C16-allow-list-deduplicated.diff", Benign: true,
+			Patch: "seeded-benign/C16-allow-list-deduplicated.diff"},
+		Variant{Name: "benign: same patch seen by C15", Property: "C15", File: "seeded-benign/C16-allow-list-deduplicated.diff", Benign: true,
+			Patch: "seeded-benign/C16-allow-list-deduplicated.diff"},
+	)
 	// ---- swallowed errors and retained state (general rules)
 	addVariants(
 		Variant{Name: "blob repair error logged and dropped", Property: "C17", File: refl,
